@@ -89,6 +89,22 @@ def clear (N : Nat) (t : Table) : Table :=
   else if ts' = u32Max then { cells := t.cells.map (fun c => { c with time := 0 }), ts := ts', length := 0 }
   else { cells := t.cells, ts := ts', length := 0 }
 
+/-- `n` successive `clear`s -/
+def clearN (N : Nat) : Nat → Table → Table
+  | 0, t => t
+  | n + 1, t => clearN N n (clear N t)
+
+/-- `n` successive `clear`s, jumping over the stretches in which `clear` only increments the generation
+(used by the driver for the 2^32-clear histories; equal to `clearN` by `Tbx.HashTable.clearMany_eq`) -/
+def clearMany (N : Nat) (n : Nat) (t : Table) : Table :=
+  if n = 0 then t
+  else if t.ts + n < 4294967295 then { cells := t.cells, ts := t.ts + n, length := 0 }
+  else if t.ts + 1 < 4294967295 then
+    clearMany N (n - (4294967294 - t.ts)) { cells := t.cells, ts := 4294967294, length := 0 }
+  else clearMany N (n - 1) (clear N t)
+termination_by n
+decreasing_by all_goals omega
+
 /-- the `verif_set_generation` hook (asserts an empty table) -/
 def setGeneration (N : Nat) (t : Table) (g : Nat) : Option Table :=
   if t.length = 0 then
